@@ -92,6 +92,14 @@ CLAIMED.update({
             "§3 C06"),
 })
 
+CLAIMED.update({
+    "C07": ("exploration",
+            "bounded-exhaustive enumeration: per family a complete product of a parameter alphabet and an argument grid containing the support boundaries, both sides of every branch and far tails (binomial: all trials 0..170 x 6 p x all x; Poisson: 14 means x all counts 0..500), coherence oracles between the two members of each pair",
+            "Coherence is a relation between two functions that no single-point test touches: on every adjacent pair of grid points the CDF difference is compared with the harness's own 64-point Gauss-Legendre integral of the library's PDF (32-point self-check), discrete CDFs with the running sum of the PMF and their steps with the PMF; range, monotonicity and limits of every CDF; Quantile_Gauss and Inv_CDF_Poisson against their CDFs; Poisson likelihoods against PMF_Poisson (binned: all tuples over small alphabets for 1..4 bins); KDE non-negative on 2385 points and integrating to one within 1e-6 for 120 data/weight/window/bandwidth configurations.",
+            "Parameter alphabets are finite (e.g. normal mu in {0,-3,1e3} x sigma in {1e-3,1,50}; chi-square dof in {0.5,...,342,344,400}). Intervals on which the 32/64-point self-check does not agree (integrable singularities at 0) are skipped and counted.",
+            "§3 C07"),
+})
+
 NOT_APPLICABLE = {
 }
 
